@@ -80,6 +80,9 @@ M = [
     ("C16-render-drops-parens-additive-right", "src/dialect_translation/mod.rs",
      "fn binary_op_builder(left: ast::Expr, op: ast::BinaryOperator, right: ast::Expr) -> ast::Expr {\n    ast::Expr::BinaryOp {\n        left: Box::new(ast::Expr::Nested(Box::new(left))),\n        op,\n        right: Box::new(ast::Expr::Nested(Box::new(right))),\n    }\n}",
      "fn binary_op_builder(left: ast::Expr, op: ast::BinaryOperator, right: ast::Expr) -> ast::Expr {\n    // additive chains need no parentheses\n    let additive = |o: &ast::BinaryOperator| matches!(o, ast::BinaryOperator::Plus | ast::BinaryOperator::Minus);\n    let flat = additive(&op) && matches!(&right, ast::Expr::BinaryOp { op: o, .. } if additive(o));\n    ast::Expr::BinaryOp {\n        left: Box::new(ast::Expr::Nested(Box::new(left))),\n        op,\n        right: Box::new(if flat { right } else { ast::Expr::Nested(Box::new(right)) }),\n    }\n}"),
+    ("C16-render-order-by-keys-reversed", "src/relation/sql.rs",
+     "                    map.order_by\n                        .iter()\n                        .map(|OrderBy { expr, asc }| ast::OrderByExpr {",
+     "                    map.order_by\n                        .iter()\n                        .rev()\n                        .map(|OrderBy { expr, asc }| ast::OrderByExpr {"),
     ("C16-join-names-from-counter", "src/relation/builder.rs",
      "            .unwrap_or(namer::name_from_content(JOIN, &self));",
      "            .unwrap_or(namer::new_name(JOIN));"),
